@@ -43,6 +43,30 @@ func (v *Verifier) evalCall(s *State, call *ast.CallExpr) []*Term {
 		}
 	}
 	if fn == nil {
+		// package-level function variable initialised with a named function and never
+		// assigned in the package's (non-test) code: a static call of that function
+		if id, ok := ast.Unparen(call.Fun).(*ast.Ident); ok {
+			if o, _ := v.info.ObjectOf(id).(*types.Var); o != nil && o.Pkg() != nil && o.Parent() == o.Pkg().Scope() && !o.Exported() {
+				if init := v.eng.globalInit(o); init != nil && v.globalNeverAssigned(o) {
+					if p := v.eng.globPkg[o]; p != nil && p.TypesInfo != nil {
+						var fid *ast.Ident
+						switch x := ast.Unparen(init).(type) {
+						case *ast.Ident:
+							fid = x
+						case *ast.SelectorExpr:
+							fid = x.Sel
+						}
+						if fid != nil {
+							if f, _ := p.TypesInfo.Uses[fid].(*types.Func); f != nil && f.Type().(*types.Signature).Recv() == nil {
+								fn = f
+							}
+						}
+					}
+				}
+			}
+		}
+	}
+	if fn == nil {
 		return v.callFuncValue(s, call)
 	}
 	sig := fn.Type().(*types.Signature)
